@@ -114,10 +114,13 @@ SomeOrderAborts(P, known, res0) ==
 (***************************************************************************)
 (* Closure invariants at every normal return of a build (C05-3, C06-2).    *)
 (***************************************************************************)
-ClosureViol(st) ==
+\* The reader-reaches-writer closure is claimed for programs in which the require that justifies a read is made by the
+\* reader itself (well-formed programs and injections into them).  In role-changing programs an intermediate task can
+\* stop requiring the writer later; pie re-validates hidden dependencies only when reader or writer re-executes.
+ClosureViol(P, st) ==
   (IF \A r \in Ress(st) : Cardinality(AllWriters(st, r)) <= 1 THEN {} ELSE {<<"C06", "single_writer">>})
   \cup
-  (IF \A r \in Ress(st) : LET w == WriterOf(st, r) IN
+  (IF P.fam = "ROLE" \/ \A r \in Ress(st) : LET w == WriterOf(st, r) IN
         w = 0 \/ \A q \in Range(ReadersOf(st, r)) : q = w \/ Reach(st, q, w)
    THEN {} ELSE {<<"C05", "closure">>})
 
@@ -186,7 +189,7 @@ OnRootRet(P, m, st, e) ==
            \cup V(m.nstk = <<>>, <<"C17", "unclosed_at_return">>)
            \cup V(m.builds = 1 /\ m.lastEv = "build_end", <<"C17", "completed_build_without_events">>)
            \cup V(m.lastReqEnd = [t |-> e.t, o |-> e.o], <<"C17", "require_end_value">>)
-           \cup ClosureViol(st)
+           \cup ClosureViol(P, st)
       m1 == Bump(Bump([m EXCEPT !.roots = roots2, !.build = "none", !.vstk = <<>>], own), "C17")
   IN RK(IF m.execd # [t \in 1..P.nt |-> 0] \/ m.sessN > 1 THEN Bump(m1, "C02") ELSE m1, v,
         IF k1 /\ own # "" THEN {<<own, "K1_stale_requirer_after_top_down">>} ELSE {})
@@ -233,7 +236,7 @@ OnBuRet(P, m, st, e) ==
   LET complete == m.changed \subseteq m.reported
   IN R(Bump([m EXCEPT !.build = "none", !.buOk = complete /\ ~m.aborted, !.changed = IF complete THEN {} ELSE @,
                  !.vstk = <<>>], "C04"),
-       V(m.nstk = <<>>, <<"C17", "unclosed_at_return">>) \cup ClosureViol(st)
+       V(m.nstk = <<>>, <<"C17", "unclosed_at_return">>) \cup ClosureViol(P, st)
        \cup V(m.builds = 1 /\ m.lastEv = "build_end", <<"C17", "completed_build_without_events">>))
 
 \* ---- requires --------------------------------------------------------------------------------------------------
@@ -605,6 +608,12 @@ EventTrackerViol(P, m, evt) ==
 DumpDeps(td) == {[k |-> d.k, x |-> d.x, c |-> d.c, s |-> d.s] : d \in Range(td.deps)}
 
 OnSessEnd(P, m, st, e) ==
+  IF "failed" \in DOMAIN e.dump THEN
+    \* the read-only dump of the real store panicked: the store's redundant encodings of the edge set disagree (C11);
+    \* the dump-based formulas cannot be evaluated for this session
+    R([m EXCEPT !.inSess = FALSE, !.prevRoots = {}, !.clean = FALSE, !.vstk = <<>>, !.nstk = <<>>, !.build = "none", !.probe = FALSE],
+      {<<"C11", "store_encodings_disagree">>})
+  ELSE
   LET vRes == V(e.res = [r \in 1..P.nr |-> st.res[r]], <<"INTEGRITY", "resource_log_incomplete">>)
       vErr == IF e.errs >= 0 THEN V(e.errs = m.errsExp, <<"C18", "reported_error_count">>) ELSE {}
       vTrk == V(e.trk_same, <<"C17", "composite_children_differ">>)
